@@ -333,11 +333,11 @@ func propC12Sequential(t *rapid.T) {
 			}
 			select {
 			case ch <- tickValue:
-			case <-time.After(3 * time.Second):
-				fail("VERIF-DEADLOCK flush loop did not take a tick within 3s")
+			case <-time.After(20 * time.Second):
+				fail("VERIF-DEADLOCK flush loop did not take a tick within 20s")
 			}
-			if !waitFor(func() bool { _, _, s, _ := sink.state(); return s > s0 }, 3*time.Second) {
-				fail("VERIF-DEADLOCK tick taken but no Sync reached the sink within 3s")
+			if !waitFor(func() bool { _, _, s, _ := sink.state(); return s > s0 }, 20*time.Second) {
+				fail("VERIF-DEADLOCK tick taken but no Sync reached the sink within 20s")
 			}
 			sawTick = true
 			hist = append(hist, "T")
@@ -352,8 +352,8 @@ func propC12Sequential(t *rapid.T) {
 				if err != nil {
 					fail("Stop returned %v", err)
 				}
-			case <-time.After(3 * time.Second):
-				fail("VERIF-DEADLOCK Stop did not return within 3s")
+			case <-time.After(20 * time.Second):
+				fail("VERIF-DEADLOCK Stop did not return within 20s")
 			}
 			hist = append(hist, "X")
 			if first {
@@ -472,13 +472,13 @@ func propC12TickWhileBusy(t *rapid.T) {
 	}()
 	select {
 	case <-sink.entered:
-	case <-time.After(3 * time.Second):
+	case <-time.After(20 * time.Second):
 		t.Fatalf("VERIF-INCONCLUSIVE the blocking sink call was not reached")
 	}
 	// more data accepted? (only possible without the lock: none) -> deliver the tick now
 	select {
 	case clk.channel() <- time.Unix(1, 0):
-	case <-time.After(3 * time.Second):
+	case <-time.After(20 * time.Second):
 		t.Fatalf("VERIF-DEADLOCK flush loop did not take the tick while a sink call was in flight")
 	}
 	_, _, syncsBefore, _ := sink.state()
@@ -491,7 +491,7 @@ func propC12TickWhileBusy(t *rapid.T) {
 	okc := waitFor(func() bool {
 		total, _, syncs, last := sink.state()
 		return total == want && last == "sync" && (block == "sync" && syncs >= syncsBefore+2 || block == "write" && syncs >= syncsBefore+1)
-	}, 3*time.Second)
+	}, 20*time.Second)
 	if !okc {
 		total, _, syncs, last := sink.state()
 		t.Fatalf("a tick taken while a sink %s was in flight was never processed: %d of %d accepted bytes in the sink, syncs %d -> %d, last op %s (size %d)", block, total, want, syncsBefore, syncs, last, size)
@@ -603,7 +603,7 @@ func propC12Concurrent(t *rapid.T) {
 	if err := bws.Stop(); err != nil {
 		t.Fatalf("final Stop: %v", err)
 	}
-	if !waitFor(func() bool { return flushLoopGoroutines() == 0 }, 5*time.Second) {
+	if !waitFor(func() bool { return flushLoopGoroutines() == 0 }, 20*time.Second) {
 		t.Fatalf("flush goroutine still running after Stop")
 	}
 	// every sink write must consist of whole records; per goroutine order; no loss, no duplicate
@@ -727,7 +727,7 @@ func c12Child() {
 			if ch := clk.channel(); ch != nil && !stopped {
 				select {
 				case ch <- time.Unix(1, 0):
-				case <-time.After(2 * time.Second):
+				case <-time.After(12 * time.Second):
 					os.Exit(95)
 				}
 			}
@@ -959,10 +959,10 @@ func propC12Faults(t *rapid.T) {
 			_, s0, _, _, _ := sink.snap()
 			select {
 			case ch <- clk.Now():
-			case <-time.After(3 * time.Second):
-				fail("VERIF-DEADLOCK flush loop did not take a tick within 3s")
+			case <-time.After(20 * time.Second):
+				fail("VERIF-DEADLOCK flush loop did not take a tick within 20s")
 			}
-			if !waitFor(func() bool { _, sc, _, wf, _ := sink.snap(); return sc > s0 || wf > 0 }, 3*time.Second) {
+			if !waitFor(func() bool { _, sc, _, wf, _ := sink.snap(); return sc > s0 || wf > 0 }, 20*time.Second) {
 				fail("a flush tick was taken but the sink's Sync was never attempted (after an earlier failed Sync the periodic flush must keep working)")
 			}
 			hist = append(hist, "T")
